@@ -1,6 +1,5 @@
 import OpusModel.EncSkel
 import OpusProofs.EncSkelCbr
-import OpusProofs.EncSkelMs
 import Mathlib.Tactic.Linarith
 import Mathlib.Tactic.Ring
 /-
@@ -733,23 +732,5 @@ theorem msClamp_fits (l : MsLayout) (hl : MsLayoutOk l) (fs fsz nch br : Int)
   have hM : OPUS_BITRATE_MAX = -1 := rfl
   unfold MsBrOk at hbr
   refine ⟨?_, ?_, ?_, d1⟩ <;> apply fits_of <;> omega
-
-/-- **Multistream budget split with the real rate allocation**: `ms_encode_ret_le_out` with `rate_sum` computed by
-    `rate_allocation` and NO hypothesis on it — for CBR with OPUS_AUTO the clamp of :882 never goes below
-    `smallest_packet` (`ms_auto_enough`). -/
-theorem ms_encode_ret_le_out_alloc (l : MsLayout) (hl : MsLayoutOk l) (fs fsz vbr br maxData : Int) (xs : List MsStream)
-    (hfs : fs = 8000 ∨ fs = 12000 ∨ fs = 16000 ∨ fs = 24000 ∨ fs = 48000) (hleg : legalFrame fs fsz = true)
-    (hlen : (xs.length : Int) = l.nbStreams) (hsmall : msSmallest l.nbStreams fs fsz ≤ maxData)
-    (hok : msAllOk l.nbStreams fs fsz vbr (msMaxBytesAlloc l vbr br fs fsz maxData) xs 0 0) :
-    msBudgetsOk l.nbStreams fs fsz (msMaxBytesAlloc l vbr br fs fsz maxData) xs 0 0 ∧
-    1 ≤ msLoop l.nbStreams fs fsz vbr (msMaxBytesAlloc l vbr br fs fsz maxData) xs 0 0 ∧
-    msLoop l.nbStreams fs fsz vbr (msMaxBytesAlloc l vbr br fs fsz maxData) xs 0 0 ≤ maxData ∧
-    (vbr = 0 → msLoop l.nbStreams fs fsz vbr (msMaxBytesAlloc l vbr br fs fsz maxData) xs 0 0 =
-       msMaxBytesAlloc l vbr br fs fsz maxData) := by
-  unfold msMaxBytesAlloc at *
-  refine ms_encode_ret_le_out l.nbStreams fs fsz vbr br (msRateSum l fs fsz br) maxData xs hl.n1 hlen hsmall ?_ hok
-  intro _ hb
-  rw [hb]
-  exact ms_auto_enough l hl fs fsz hfs hleg
 
 end Opus.EncSkel.Proofs
